@@ -18,12 +18,16 @@ def gen_case(rng, i):
         for vk, ve in rng.sample(VIEWS, 4):
             calls.append({"k": "first_np", "type": n, "viewkind": vk, "view": ve})
         calls.append({"k": "first_xo", "type": n, "pre": rng.choice([0, 8, 24]), "grow": rng.choice([None, 64, 1000])})
+        # CPU buffers pack: after an odd-sized raw allocation the array data sit at an offset that is no multiple of the item size
+        calls.append({"k": "first_xo", "type": n, "pre": rng.choice([1, 3, 5, 13, 22]), "grow": rng.choice([None, 64]), "bufkind": rng.choice([None, "bytearray"])})
         other = rng.choice([m for m in G.SC if m != n])
         calls.append({"k": "wrong_dtype", "type": n, "other": other})
         calls.append({"k": "refusals", "type": n, "bits": G.scalar_value(rng, n)})
     for _ in range(3):
         calls.append({"k": "struct", "n_objs": rng.choice([1, 2, 3]), "gaps": rng.choice([None, [8], [24, 8, 40]]), "cap": rng.choice([64, 128, 1024]),
                       "vlen": rng.choice([1, 2, 3]), "grow": rng.choice([None, [64], [1000, 8]])})
+    calls.append({"k": "struct", "n_objs": rng.choice([1, 2, 3]), "gaps": rng.choice([None, [8], [3, 13]]), "cap": rng.choice([64, 1024]),
+                  "vlen": rng.choice([1, 3]), "grow": rng.choice([None, [64]]), "bufkind": "bytearray"})
     return {"omp": rng.choice([0, 0, 2]), "scalars": scalars, "calls": calls}
 
 
@@ -46,7 +50,7 @@ def run(ctx):
         for call in r["calls"]:
             ncalls += 1
             tag = call["tag"]; hist[tag.split("/")[0]] += 1
-            fam = "/".join(tag.split("/")[:2]) if tag.startswith("first-numpy") else tag.split("/")[0] + ("/after-growth" if "after-growth" in tag else "")
+            fam = "/".join(tag.split("/")[:2]) if tag.startswith("first-numpy") else tag.split("/")[0] + ("/after-growth" if "after-growth" in tag else "") + ("/bytearray-buffer" if "bytearray-buffer" in tag else "")
             if call.get("refused_expected"):
                 if call["ok"]:
                     bysig.setdefault("C17/%s-not-refused" % fam, (i, "the call went through: %s" % str(call.get("got"))[:100], call))
